@@ -239,8 +239,10 @@ Qed.
 
 (** ** the guards of one rule set *)
 
-Definition set_good (ds : list rdef) : bool :=
-  negb (f2_set ds) && negb (f4_set ds) && negb (dupid_set ds) && keys_ok ds.
+(** what the guards say about one rule set ([fx]: with fixes/C06-F4.diff a duplicate
+    path in a rule is no longer a problem) *)
+Definition set_good (fx : fixes) (ds : list rdef) : bool :=
+  negb (f2_set ds) && (fix_F4 fx || negb (f4_set ds)) && negb (dupid_set ds).
 
 Lemma share_pat_sym a b : share_pat a b = share_pat b a.
 Proof.
